@@ -24,7 +24,8 @@ type dgRoles struct {
 	until  *types.Func
 	astPkg string
 	// functions with span parameters that flow into a diagnostic: fn -> param index set
-	flow map[*types.Func]map[int]bool
+	flow  map[*types.Func]map[int]bool
+	decls map[*types.Func]*ast.FuncDecl
 }
 
 type dgUse struct {
@@ -33,6 +34,85 @@ type dgUse struct {
 	info *types.Info
 	expr ast.Expr
 	what string // "Diagnostic literal" / "error()" …
+	// env: parameters of a span helper being evaluated, bound to the operands
+	// of the call (in the context of the caller)
+	env map[types.Object]dgBound
+}
+
+type dgBound struct {
+	e ast.Expr
+	u dgUse
+}
+
+// dgSingleDef: the defining expression of a local that is defined exactly once
+// and never assigned again.
+func dgSingleDef(info *types.Info, fd *ast.FuncDecl, obj types.Object) ast.Expr {
+	var def ast.Expr
+	n := 0
+	ast.Inspect(fd.Body, func(m ast.Node) bool {
+		switch x := m.(type) {
+		case *ast.AssignStmt:
+			for i, l := range x.Lhs {
+				if lid, ok := l.(*ast.Ident); ok && (info.Defs[lid] == obj || info.Uses[lid] == obj) {
+					n++
+					if len(x.Lhs) == len(x.Rhs) {
+						def = x.Rhs[i]
+					} else {
+						n++
+					}
+				}
+			}
+		case *ast.ValueSpec:
+			for i, nm := range x.Names {
+				if info.Defs[nm] == obj {
+					n++
+					if i < len(x.Values) {
+						def = x.Values[i]
+					}
+				}
+			}
+		case *ast.IncDecStmt:
+			if lid, ok := x.X.(*ast.Ident); ok && info.Uses[lid] == obj {
+				n += 2
+			}
+		case *ast.RangeStmt:
+			for _, l := range []ast.Expr{x.Key, x.Value} {
+				if lid, ok := l.(*ast.Ident); ok && info.Defs[lid] == obj {
+					n += 2
+				}
+			}
+		}
+		return true
+	})
+	if n != 1 {
+		return nil
+	}
+	return def
+}
+
+// deref follows an identifier to what it stands for: the operand a helper
+// parameter is bound to, or the single definition of a local.
+func (r *dgRoles) deref(u dgUse, e ast.Expr) (dgUse, ast.Expr) {
+	for i := 0; i < 6; i++ {
+		id, ok := ast.Unparen(e).(*ast.Ident)
+		if !ok {
+			break
+		}
+		obj := u.info.Uses[id]
+		if obj == nil {
+			break
+		}
+		if b, ok := u.env[obj]; ok {
+			u, e = b.u, b.e
+			continue
+		}
+		def := dgSingleDef(u.info, u.fd, obj)
+		if def == nil {
+			break
+		}
+		e = def
+	}
+	return u, ast.Unparen(e)
 }
 
 func ruleDiagSpan(c *Ctx) []Obligation {
@@ -60,6 +140,7 @@ func ruleDiagSpan(c *Ctx) []Obligation {
 			decls[fn] = fd
 		}
 	}
+	r.decls = decls
 	paramIndex := func(fd *ast.FuncDecl, obj types.Object) int {
 		i := 0
 		for _, f := range fd.Type.Params.List {
@@ -277,6 +358,12 @@ func (r *dgRoles) classify(u dgUse, e ast.Expr, order map[string]*spOrderFact, d
 		}
 		if fn != nil {
 			sig := fn.Type().(*types.Signature)
+			if sig.Recv() != nil && len(x.Args) == 0 && r.decls[fn] == nil {
+				return Discharged, "node", "span of " + exprStr(ast.Unparen(x.Fun).(*ast.SelectorExpr).X) + " via " + fn.Name() + "()"
+			}
+			if st, class, det, ok := r.helper(u, x, fn, order, depth); ok {
+				return st, class, det
+			}
 			if sig.Recv() != nil && len(x.Args) == 0 {
 				return Discharged, "node", "span of " + exprStr(ast.Unparen(x.Fun).(*ast.SelectorExpr).X) + " via " + fn.Name() + "()"
 			}
@@ -291,6 +378,9 @@ func (r *dgRoles) classify(u dgUse, e ast.Expr, order map[string]*spOrderFact, d
 		obj := info.Uses[x]
 		if obj == nil {
 			return Undecided, "other", x.Name
+		}
+		if b, ok := u.env[obj]; ok {
+			return r.classify(b.u, b.e, order, depth+1)
 		}
 		for _, f := range u.fd.Type.Params.List {
 			for _, n := range f.Names {
@@ -358,6 +448,69 @@ func (r *dgRoles) classify(u dgUse, e ast.Expr, order map[string]*spOrderFact, d
 	return Undecided, "other", exprStr(e)
 }
 
+// helper: a function of the package that computes a span from its operands
+// (`func spanBetween(a, b errors.Span) errors.Span`): every returned
+// expression is decided with the parameters bound to the operands of this call.
+func (r *dgRoles) helper(u dgUse, call *ast.CallExpr, fn *types.Func, order map[string]*spOrderFact, depth int) (Status, string, string, bool) {
+	fd := r.decls[fn]
+	if fd == nil || depth > 4 {
+		return 0, "", "", false
+	}
+	sig := fn.Type().(*types.Signature)
+	if sig.Results().Len() != 1 || !types.Identical(sig.Results().At(0).Type(), r.spanT) || sig.Variadic() {
+		return 0, "", "", false
+	}
+	u2 := dgUse{fd: fd, pkg: u.pkg, info: u.info, what: u.what, env: map[types.Object]dgBound{}}
+	i := 0
+	for _, f := range fd.Type.Params.List {
+		if len(f.Names) == 0 {
+			i++
+		}
+		for _, n := range f.Names {
+			if o := u.info.Defs[n]; o != nil && i < len(call.Args) {
+				u2.env[o] = dgBound{call.Args[i], u}
+			}
+			i++
+		}
+	}
+	if sig.Recv() != nil && fd.Recv != nil && len(fd.Recv.List) > 0 && len(fd.Recv.List[0].Names) > 0 {
+		if sel, ok := ast.Unparen(call.Fun).(*ast.SelectorExpr); ok {
+			if o := u.info.Defs[fd.Recv.List[0].Names[0]]; o != nil {
+				u2.env[o] = dgBound{sel.X, u}
+			}
+		}
+	}
+	var rets []ast.Expr
+	ast.Inspect(fd.Body, func(n ast.Node) bool {
+		switch x := n.(type) {
+		case *ast.FuncLit:
+			return false
+		case *ast.ReturnStmt:
+			if len(x.Results) == 1 {
+				rets = append(rets, x.Results[0])
+			}
+		}
+		return true
+	})
+	if len(rets) == 0 {
+		return 0, "", "", false
+	}
+	worst, class, det := Discharged, "", ""
+	for _, e := range rets {
+		s, cl, dd := r.classify(u2, e, order, depth+1)
+		if s == Violated || (s == Undecided && worst == Discharged) {
+			worst, det = s, dd
+		}
+		if det == "" {
+			det = dd
+		}
+		if class == "" || cl == "zero" || cl == "combined" {
+			class = cl
+		}
+	}
+	return worst, class, fn.Name() + "(…) = " + det, true
+}
+
 // dgPath decomposes <root>.<f1>.<f2>.Span().Start into root, field path, edge.
 type dgPath struct {
 	root  types.Object
@@ -367,8 +520,10 @@ type dgPath struct {
 	ok    bool
 }
 
-func (r *dgRoles) path(info *types.Info, e ast.Expr) dgPath {
+func (r *dgRoles) path(u dgUse, e ast.Expr) dgPath {
+	info := u.info
 	var p dgPath
+	u, e = r.deref(u, e) // a location held in a local / passed to a helper
 	s, ok := ast.Unparen(e).(*ast.SelectorExpr)
 	if !ok {
 		return p
@@ -377,7 +532,8 @@ func (r *dgRoles) path(info *types.Info, e ast.Expr) dgPath {
 		return p
 	}
 	p.edge = s.Sel.Name
-	cur := ast.Unparen(s.X) // an errors.Span valued expression
+	var cur ast.Expr
+	u, cur = r.deref(u, s.X) // an errors.Span valued expression
 	// strip the span accessor: X.Span() or X.<spanfield>
 	switch x := cur.(type) {
 	case *ast.CallExpr:
@@ -400,6 +556,16 @@ func (r *dgRoles) path(info *types.Info, e ast.Expr) dgPath {
 			cur = ast.Unparen(x.X)
 			continue
 		case *ast.Ident:
+			// a local that merely names a child (`base := node.Base`) is that child
+			if u2, e2 := r.deref(u, x); e2 != ast.Expr(x) {
+				if _, isSel := e2.(*ast.SelectorExpr); isSel {
+					u, cur = u2, e2
+					continue
+				}
+				if id2, isId := e2.(*ast.Ident); isId {
+					u, x = u2, id2
+				}
+			}
 			p.root = info.Uses[x]
 			p.rootT = info.Types[x].Type
 			for i := len(rev) - 1; i >= 0; i-- {
@@ -414,7 +580,7 @@ func (r *dgRoles) path(info *types.Info, e ast.Expr) dgPath {
 
 func (r *dgRoles) combined(u dgUse, a, b, f ast.Expr, order map[string]*spOrderFact) (Status, string, string) {
 	info := u.info
-	pa, pb := r.path(info, a), r.path(info, b)
+	pa, pb := r.path(u, a), r.path(u, b)
 	if !pa.ok || !pb.ok {
 		return Undecided, "combined", fmt.Sprintf("Start=%s / End=%s: not locations of named nodes", exprStr(a), exprStr(b))
 	}
@@ -424,9 +590,11 @@ func (r *dgRoles) combined(u dgUse, a, b, f ast.Expr, order map[string]*spOrderF
 	// filename must come from the same node
 	fOK := false
 	if f != nil {
-		if fs, ok := ast.Unparen(f).(*ast.SelectorExpr); ok && fs.Sel.Name == "Filename" {
+		_, fe := r.deref(u, f)
+		if fs, ok := fe.(*ast.SelectorExpr); ok && fs.Sel.Name == "Filename" {
 			rootOK := false
-			ast.Inspect(fs.X, func(n ast.Node) bool {
+			_, fx := r.deref(u, fs.X)
+			ast.Inspect(fx, func(n ast.Node) bool {
 				if id, ok := n.(*ast.Ident); ok && info.Uses[id] == pa.root {
 					rootOK = true
 				}
